@@ -4,6 +4,7 @@ import Req.H2.Fields
 import Req.Driver.WireUtil
 import Req.H2.HeaderBlock
 import Req.Client.Resend
+import Req.Client.Rewrite
 /-! Driver lanes of C16. -/
 namespace Req.Driver.L.C16
 open Req.Proto
@@ -132,6 +133,55 @@ def laneResend : List String → String
     | _, _, _, _, _, _, _, _, _, _, _ => "bad-op"
   | _ => "bad-op"
 
+
+/-- the case line of `c01h1` (decoded here too, so that the C16 driver file stands on its own):
+`<method> <rawurl> <host> <hdr> <cl> <hasBody> <body> <reads> <close> <extra> <proxy> <rawQuery>`. -/
+def decodeWReq : List String → Option Req.H1.WReq
+  | [m, raw, host, hdr, cl, hb, body, reads, close, extra, proxy, rq] => do
+    let m ← decodeHex m
+    let raw ← decodeHex raw
+    let host ← decodeHex host
+    let hdr ← Wire.decodeHdr hdr
+    let cl ← decodeInt cl
+    let hb ← Wire.decodeBool hb
+    let body ← Wire.decodeBody body
+    let reads ← decodeNatList reads
+    let close ← Wire.decodeBool close
+    let extra ← Wire.decodeHdr extra
+    let proxy ← Wire.decodeBool proxy
+    let rq ← if rq == "-" then pure none else (decodeHex rq).map some
+    match Req.Url.parse raw with
+    | .ok u0 =>
+      let u := match rq with
+        | some q => { u0 with rawQuery := q }
+        | none => u0
+      pure { method := m, url := u, host := host, header := hdr, contentLength := cl,
+             hasBody := hb, body := body, reads := reads, close := close, extra := extra,
+             usingProxy := proxy }
+    | .error _ => none
+  | _ => none
+
+def encodeHdrSorted (h : List Req.HeaderSort.KV) : String :=
+  let h := h.mergeSort fun a b => Req.BStr.le a.key b.key
+  if h.isEmpty then "-" else
+  ",".intercalate (h.map fun kv => ":".intercalate (encodeHex kv.key :: kv.values.map encodeHex))
+
+/-- `c16rewrite <n> <c01h1 arguments…>`: the SAME request object written `n` times in a row by
+`persistConn.writeRequest` (transparent re-send on a new connection): the rendering of every
+attempt (as `c01h1`), then the header map the request is left with (sorted by key). -/
+def laneRewrite : List String → String
+  | n :: args =>
+    match n.toNat?, decodeWReq args with
+    | some n, some r =>
+      let res := Req.Rewrite.writeAttempts n r
+      let order := Req.H1.orderList r.header
+      let showOne : Except Req.H1.WErr Bytes → String
+        | .error e => showWErr e
+        | .ok wire => if order.isEmpty then "ok " ++ Wire.showBlob wire else Wire.showOrdered wire order
+      " | ".intercalate (res.1.map showOne) ++ " after=" ++ encodeHdrSorted res.2.header
+    | _, _ => "bad-op"
+  | _ => "bad-op"
+
 /-- `c16values <h2|h3> …` (arguments of `c16fields`) → for every header-map key whose lower-cased
 name has a single spelling in the map, sorted by name: the values of the fields of that name in
 ARRIVAL order (value order and multiplicity within a name; independent of the map iteration
@@ -164,6 +214,7 @@ def laneValues : List String → String
 
 def lanes : List (String × (List String → String)) := [
   ("c16values", laneValues),
+  ("c16rewrite", laneRewrite),
   ("c16hframes", laneHFrames),
   ("c16resend", laneResend),
   ("sort", laneSort),
